@@ -637,6 +637,157 @@ def r11(ctx):
     ctx.share("C05.R11", C16.r2, "C16.R2", keep=lambda k: "records" in k, floor=2)
 
 
+def r12(ctx):
+    """"point lookups agree with queries": the point lookup (store::fs::get_exact and its callers Store::get_exact / the replica's
+    get_exact) evaluated on row absent / live / deletion marker x include-deleted: it reads the row of exactly (this document,
+    this author, this key) from the records table and applies the same emptiness rule as the query path; a failing read is an error"""
+    from . import feval as E, coll
+    f = ctx.facts
+    GE = "store::fs::get_exact"
+    b = f.body(GE)
+    ctx.touch(b)
+    for row in ("absent", "live", "marker", "read-fails"):
+        for inc in (0, 1):
+            C = coll.Collections(f)
+            log = []
+
+            def oracle(kind, name, payload, site):
+                if kind != "call":
+                    return None
+                t, args, it = payload
+                names = [it.tokname(a).strip("&*") for a in args]
+                if name == "get" and len(args) == 2 and names[0] == "records-table":
+                    log.append(("get", E.describe(it.resolve(args[1]), f)))
+                    if row == "read-fails":
+                        return E.Err(E.Tok("storage-error"))
+                    return E.Ok(E.NONE if row == "absent" else E.Some(E.Tok("guard")))
+                if name == "value" and names and names[0] == "guard":
+                    return E.Tok("row")
+                if mir.callee_matches(t, r"store::fs::into_entry$"):
+                    log.append(("into_entry", E.describe(it.resolve(args[0]), f), names[1]))
+                    return E.Tok("entry")
+                if name == "is_empty" and names and names[0] == "entry":
+                    return E.Int(1 if row == "marker" else 0)
+                if name in ("as_bytes", "as_ref") and len(args) == 1:
+                    return E.Tok("%s" % names[0])
+                return C.handle(kind, name, payload, site)
+            key = "point-lookup[row=%s,include_empty=%d]" % (row, inc)
+            try:
+                ret, itp = E.run_it(f, GE, [E.href("t"), E.Tok("ns"), E.Tok("author"), E.Tok("key"), E.Int(inc)], {"t": E.Tok("records-table")}, oracle)
+                got = E.describe(itp.resolve(ret), f)
+            except E.Unsupported as e:
+                ctx.bad("C05.R12", GE, key, "UNSUPPORTED-FORM: %s" % e, b.sp)
+                continue
+            want = "Err" if row == "read-fails" else ("Ok(Some(entry))" if (row == "live" or (row == "marker" and inc)) else "Ok(None)")
+            gets = [x for x in log if x[0] == "get"]
+            ok = got.startswith(want) and gets == [("get", "(ns,author,key)")] and all(x[1] == "(ns,author,key)" and x[2] == "row" for x in log if x[0] == "into_entry")
+            ctx.check(ok, "C05.R12", GE, key, "returns %s after %s; spec: %s, reading the row of (document, author, key) once" % (got, log, want), b.sp)
+    # callers hand their own arguments on, and read the records table
+    n = 0
+    for body in f.bodies.values():
+        for bi, t in body.calls():
+            if mir.callee_matches(t, r"store::fs::get_exact$") and body.path != GE:
+                n += 1
+                ctx.touch(body)
+                # the table handed over is told by its key/value types (all tables of the store differ in them)
+                types = tables.table_types(f)
+                targ = " ".join(t["f"].get("targs") or []) + " " + (t["f"].get("full") or "")
+                m = tables.TABLE_RX.search(tables.norm(targ))
+                which = [nm for nm, kv in types.items() if m and tables.norm(m.group(3)) == kv]
+                if not which and re.search(r"ReadableTable<RecordsId<[^>]*>, RecordsValue<[^>]*>>", targ):
+                    which = ["records"]     # a caller that is itself generic over the reading trait, at the records table's key / value types
+                ctx.check(which == ["records"], "C05.R12", body.path, "point-lookup-reads-the-records-table", "table argument by type: %s (%s)" % (which, m.group(0) if m else targ[:120]), t["sp"])
+    if n < 2:
+        raise mir.AnchorMissing("expected >= 2 callers of store::fs::get_exact (Store::get_exact, parents), found %d" % n)
+    sg = f.body("store::fs::Store::get_exact")
+    ctx.touch(sg)
+    c = [t for _, t in sg.calls() if mir.callee_matches(t, r"store::fs::get_exact$")]
+    if len(c) == 1:
+        got = [sorted({mir.origin_summary(o) for o in mir.trace(sg, c[0]["a"][i])}) for i in (1, 2, 3, 4)]
+        ctx.check(got == [["arg:namespace"], ["arg:author"], ["arg:key"], ["arg:include_empty"]], "C05.R12", sg.path, "forwards-its-own-arguments", "%s" % got, sg.sp)
+    else:
+        ctx.bad("C05.R12", sg.path, "forwards-its-own-arguments", "%d calls of get_exact" % len(c), sg.sp)
+    ctx.floor("C05.R12", 11)
+
+
+def r13(ctx):
+    """"for every query": the query a caller describes through the public builder is the query that is run - every builder method
+    (store::QueryBuilder) evaluated on a builder whose fields are distinct tokens: it sets exactly the field it names to exactly its
+    argument (key_exact -> KeyFilter::Exact(key), key_prefix -> Prefix, author -> AuthorFilter::Exact, limit -> Some(n), ...) and
+    leaves every other field alone; the conversion into store::Query copies every field to the field of the same name"""
+    from . import feval as E, coll
+    f = ctx.facts
+    QB = "store::QueryBuilder"
+    fields0 = {"kind": "kind0", "filter_author": "fa0", "filter_key": "fk0", "limit": "limit0", "offset": "offset0", "include_empty": "ie0", "sort_direction": "sd0"}
+    C = coll.Collections(f)
+
+    def oracle(kind, name, payload, site):
+        if kind != "call":
+            return None
+        t, args, it = payload
+        if name in ("as_ref", "to_vec", "into", "from", "to_owned", "copy_from_slice") and len(args) == 1:
+            nm = it.tokname(args[0]).strip("&*")
+            if nm.startswith("arg."):
+                return E.Tok(nm)
+        return C.handle(kind, name, payload, site)
+
+    def render(itp, v, adt):
+        v = itp.resolve(v)
+        out = {}
+        for i, fd in enumerate(f.adt(adt)["variants"][0]["fields"]):
+            out[fd["name"]] = E.describe(itp.resolve(v[3].get(i)), f) if (v is not None and v[0] == "adt") else "?"
+        return out
+    spec = [
+        ("store::QueryBuilder::<K>::include_empty", [], {"include_empty": "1"}),
+        ("store::QueryBuilder::<K>::key_exact", ["arg.key"], {"filter_key": "Exact(arg.key)"}),
+        ("store::QueryBuilder::<K>::key_prefix", ["arg.key"], {"filter_key": "Prefix(arg.key)"}),
+        ("store::QueryBuilder::<K>::author", ["arg.author"], {"filter_author": "Exact(arg.author)"}),
+        ("store::QueryBuilder::<K>::limit", ["arg.limit"], {"limit": "Some(arg.limit)"}),
+        ("store::QueryBuilder::<K>::offset", ["arg.offset"], {"offset": "arg.offset"}),
+        ("store::QueryBuilder::<store::FlatQuery>::sort_by", ["arg.sort_by", "arg.direction"], {"kind": "FlatQuery(arg.sort_by)", "sort_direction": "arg.direction"}),
+        ("store::QueryBuilder::<store::SingleLatestPerKeyQuery>::sort_direction", ["arg.direction"], {"sort_direction": "arg.direction"}),
+    ]
+    for path, params, changes in spec:
+        b = f.body(path)
+        ctx.touch(b)
+        kindv = E.struct(f, "store::FlatQuery", sort_by=E.Tok("sb0")) if "FlatQuery" in path else E.Tok("kind0")
+        init = {k: (kindv if k == "kind" else E.Tok(v)) for k, v in fields0.items()}
+        want = dict(fields0)
+        if "FlatQuery" in path:
+            want["kind"] = "FlatQuery(sb0)"
+        want.update(changes)
+        key = "builder[%s]" % path.split("::")[-1]
+        try:
+            ret, itp = E.run_it(f, path, [E.struct(f, QB, **init)] + [E.Tok(x) for x in params], {}, oracle)
+            got = render(itp, ret, QB)
+        except E.Unsupported as e:
+            ctx.bad("C05.R13", path, key, "UNSUPPORTED-FORM: %s" % e, b.sp)
+            continue
+        ctx.check(got == want, "C05.R13", path, key, "builder fields afterwards %s; spec %s" % (got, want), b.sp)
+    for path, wrap in (("<store::Query as std::convert::From<store::QueryBuilder<store::FlatQuery>>>::from", "Flat"), ("<store::Query as std::convert::From<store::QueryBuilder<store::SingleLatestPerKeyQuery>>>::from", "SingleLatestPerKey")):
+        b = f.body(path)
+        ctx.touch(b)
+        init = {k: E.Tok(v) for k, v in fields0.items()}
+        want = dict(fields0)
+        want["kind"] = "%s(kind0)" % wrap
+        key = "builder-into-query[%s]" % wrap
+        try:
+            ret, itp = E.run_it(f, path, [E.struct(f, QB, **init)], {}, oracle)
+            got = render(itp, ret, "store::Query")
+        except E.Unsupported as e:
+            ctx.bad("C05.R13", path, key, "UNSUPPORTED-FORM: %s" % e, b.sp)
+            continue
+        ctx.check(got == want, "C05.R13", path, key, "query fields %s; spec %s" % (got, want), b.sp)
+    # the shorthands Query::author / key_exact / key_prefix are the builder methods of the same name on Query::all()
+    for nm in ("author", "key_exact", "key_prefix"):
+        b = f.body("store::Query::" + nm)
+        ctx.touch(b)
+        calls = [t for _, t in b.calls() if t["f"].get("name") == nm and mir.callee_matches(t, r"store::QueryBuilder")]
+        ok = len(calls) == 1 and {origin_summary(o) for o in trace(b, calls[0]["a"][1])} == {"arg:%s" % (b.local_name(1) or "")}
+        ctx.check(ok, "C05.R13", b.path, "shorthand-is-the-builder-method", "%d calls of QueryBuilder::%s with its own argument" % (len(calls), nm), b.sp)
+    ctx.floor("C05.R13", 13)
+
+
 def run(ctx):
     ctx.run_rule("C05.R1", r1)
     ctx.run_rule("C05.R2", r2)
@@ -649,3 +800,5 @@ def run(ctx):
     ctx.run_rule("C05.R9", r9)
     ctx.run_rule("C05.R10", r10)
     ctx.run_rule("C05.R11", r11)
+    ctx.run_rule("C05.R12", r12)
+    ctx.run_rule("C05.R13", r13)
